@@ -169,7 +169,8 @@ func childFail(format string, args ...any) {
 }
 
 // killCase is one kill point: the K-th call of Sys after the BEGIN marker on
-// the refreshing thread, in the given TMPDIR variant.
+// the refreshing thread, in the given TMPDIR variant.  An empty Sys is the
+// complete run without a kill.
 type killCase struct {
 	Variant string `json:"variant"`
 	Sys     string `json:"syscall"`
@@ -376,16 +377,7 @@ func (g *killRig) dryRun(variant string) (d *dryCounts) {
 	if killed || exit != 0 || l.phase != "after-end" {
 		vrt.Fatalf("dry run of the refresh child did not complete (killed=%t exit=%d phase=%s)", killed, exit, l.phase)
 	}
-	// The completed child must have produced version 1 everywhere.
-	files, _, err := readCacheDir(dir)
-	if err != nil {
-		vrt.Fatalf("reading dry-run cache dir: %v", err)
-	}
-	for _, pos := range append(append([]string{}, storagePositions...), posHP) {
-		if files[cacheFileOf(pos)] != content(pos, 1) {
-			vrt.Fatalf("dry run: cache file %s is not version 1", cacheFileOf(pos))
-		}
-	}
+	_ = dir
 	_ = os.RemoveAll(work)
 	d = &dryCounts{n0: l.n0, n: l.counts, total: l.cacheOps}
 	g.dry[variant] = d
@@ -415,8 +407,10 @@ func (g *killRig) runKillCase(c killCase) (out []vrt.Finding) {
 // the resulting directory and restart, and reports whether the kill landed
 // where it was asked for (or the child completed).
 func (g *killRig) runKillOnce(fs *findings, c killCase) (onTarget bool) {
-	d := g.dryRun(c.Variant)
-	when := d.n0[c.Sys] + c.K
+	when := 0
+	if c.Sys != "" {
+		when = g.dryRun(c.Variant).n0[c.Sys] + c.K
+	}
 	work, dir, l, killed, exit := g.runRefreshChild(c.Variant, c.Sys, when)
 	if os.Getenv("C13_KEEP") == "" {
 		defer os.RemoveAll(work)
@@ -426,6 +420,9 @@ func (g *killRig) runKillOnce(fs *findings, c killCase) (onTarget bool) {
 	g.r.Trans(l.cacheOps)
 
 	switch {
+	case !killed && l.phase == "after-end" && c.Sys == "":
+		onTarget = true
+		g.r.Class("complete-run:no-kill")
 	case !killed && l.phase == "after-end":
 		onTarget = true
 		g.r.Class("not-reached:child-completed")
@@ -464,6 +461,9 @@ func (g *killRig) runKillOnce(fs *findings, c killCase) (onTarget bool) {
 			fs.add("kill/cache-file-missing", "kill %+v (at %s %s): cache file %s is gone", c, l.last.sys, clip(l.last.text), name)
 		case !ok:
 			disk[pos] = "missing"
+		case data == content(pos, 0) && !killed && l.phase == "after-end":
+			disk[pos] = "v0"
+			fs.add("kill/complete-refresh-left-old-cache-file", "run %+v completed its refresh, cache file %s still holds version 0", c, name)
 		case data == content(pos, 0):
 			disk[pos] = "v0"
 		case data == content(pos, 1):
@@ -606,6 +606,15 @@ func TestVerifC13Kill(t *testing.T) {
 			r.Bound("kill_points_"+v, fmt.Sprint(d.n))
 			r.Bound("kill_points_total_"+v, d.total)
 			stop := false
+			// The complete run without a kill is a case of its own: the
+			// directory and the restart are judged after it as well.
+			if r.Mine() {
+				c := killCase{Variant: v}
+				r.Eval()
+				fs := g.runKillCase(c)
+				r.Sample(c)
+				r.Report(part, c, fs)
+			}
 			for _, sys := range killSyscalls {
 				for k := 1; k <= killMaxK; k++ {
 					mine := r.Mine()
